@@ -93,6 +93,8 @@ def solver_programs():
                 dims.append((2, 2))
             if noise == 'diagonal':
                 dims.append((2, 2))
+            if noise == 'scalar':
+                dims.append((2, 1))
             if noise == 'additive' and method in ('euler', 'heun', 'midpoint', 'euler_heun', 'reversible_heun', 'log_ode'):
                 dims.append((2, 2))
             for d, m in dims:
@@ -137,5 +139,27 @@ def loop_programs():
     return P
 
 
+LOGQP_TABLE = [('euler', 'ito'), ('milstein', 'ito'), ('srk', 'ito'), ('midpoint', 'stratonovich'), ('heun', 'stratonovich'),
+               ('euler_heun', 'stratonovich'), ('milstein', 'stratonovich'), ('reversible_heun', 'stratonovich')]
+
+
+def logqp_programs():
+    from . import prog_solvers as ps
+    P = []
+    for method, sde_type in LOGQP_TABLE:
+        for noise, d, m in (('diagonal', 1, 1), ('scalar', 2, 1)):
+            if method in ('reversible_heun',) and noise == 'scalar':
+                continue
+            fn, sample, funcs = ps.make_logqp_step(method, sde_type, noise, d, m)
+            P.append(Prog(f"logqp_{method}_{sde_type[0]}_{noise}_{d}{m}", 'Logqp', fn, sample, funcs=funcs,
+                          tol=1e-11 if method == 'milstein' else 4e-15, props=('C18',)))
+
+    def s_pr(rng):
+        return dict(ys=np.array([rng.gauss(0, 1) for _ in range(8)]).reshape(4, 1, 2),
+                    y0a=np.array([[rng.gauss(0, 1), 0.0]]))
+    P.append(Prog('parse_return_logqp', 'Logqp', lambda B: ps.parse_return_logqp(B), s_pr, props=('C18',)))
+    return P
+
+
 def all_programs():
-    return brownian_programs() + solver_programs() + loop_programs()
+    return brownian_programs() + solver_programs() + loop_programs() + logqp_programs()
